@@ -227,6 +227,10 @@ OPAQUE_PRODUCERS = {
   "action_from_repr": "raw path: ApplyDocActions/ApplyUndoActions replay actions given as data",
   "recalc_from_reverse_values": "returns a BulkUpdateRecord for the reverse column, or None",
 }
+# A function that is itself a gateway (events.is_gateway_call names it) may forward its own
+# parameter: what it is handed is decided at its call sites, which are gateway sites themselves.
+GATEWAY_WRAPPERS = ("_do_extra_doc_action",)
+FORWARDED = "<parameter of a gateway wrapper>"
 
 
 def classify_gateway_arg(fn, du, call, names):
@@ -234,8 +238,18 @@ def classify_gateway_arg(fn, du, call, names):
   be, or the enumerated producer call it comes from. Anything else cannot be classified."""
   arg = call.args[0]
   kinds = action_kinds_of_arg(fn, du, arg, names)
+  # the wrapper's own parameter handed on unchanged (possibly through plain copies)
+  forwarded = False
+  if fn.fi.name in GATEWAY_WRAPPERS and isinstance(arg, ast.Name):
+    n_ = arg
+    while isinstance(alias_value(fn, n_.id), ast.Name):
+      n_ = alias_value(fn, n_.id)
+    ps_ = fn.fi.params()
+    forwarded = n_.id in ps_[1:] and not E.local_defs(fn.node, n_.id)
   if kinds:
     return kinds, None
+  if forwarded:
+    return set(), FORWARDED
   cands = [arg]
   if isinstance(arg, ast.Name):
     cands = E.local_defs(fn.node, arg.id)
@@ -810,7 +824,8 @@ def loop_as_comprehension(fn, du, rd, name, at):
   """When local `name`, read at node `at`, was built as
         name = [] / set() / {}
         for T in IT:  [if C:]  name.append(E) / name.add(E) / name[K] = V
-  (nothing else writes it), the equivalent ListComp / SetComp / DictComp node, else None. Simple
+  (nothing else writes it; an `if C: name.append(E1) else: name.append(E2)` counts as appending
+  `E1 if C else E2`), the equivalent ListComp / SetComp / DictComp node, else None. Simple
   temporaries assigned in the loop body just before the write are substituted."""
   cfg = rd.cfg
   ds = rd.reaching(name, at)
@@ -822,63 +837,88 @@ def loop_as_comprehension(fn, du, rd, name, at):
   if kind is None:
     return None
   muts = {m for m in du.muts.get(name, set()) if m in cfg.reach_after({d0})}
-  if len(muts) != 1:
+  if not muts:
     return None
-  m = cfg.nodes[next(iter(muts))]
-  chain = enclosing_chain_of(fn, m.stmt)
-  loops = [(i, s) for i, (s, f) in enumerate(chain) if isinstance(s, (ast.For, ast.While))]
-  if len(loops) != 1 or not isinstance(loops[0][1], ast.For) or loops[0][1].orelse:
-    return None
-  li, loop = loops[0]
-  if chain[li][1] != "body":
-    return None
-  # the loop is after the initialisation and over before the read
+  # all writes sit in one `for` loop (not nested in another loop inside it)
+  loop = None
+  for m in muts:
+    chain = enclosing_chain_of(fn, cfg.nodes[m].stmt)
+    loops = [s for (s, f) in chain if isinstance(s, (ast.For, ast.While))]
+    if len(loops) != 1 or not isinstance(loops[0], ast.For) or loops[0].orelse or \
+        (loop is not None and loops[0] is not loop):
+      return None
+    loop = loops[0]
   lnode = [n for n in cfg.nodes if n.kind == "for" and n.stmt is loop]
   if not lnode or not cfg.dominated_by(lnode[0].id, {d0}) or at in nodes_of_stmts(
       cfg, stmts_under(loop.body)) or at == lnode[0].id:
     return None
-  # between the loop header and the write: only `if C:` (no else) nesting ...
-  ifs = []
-  for (s, f) in chain[li + 1:]:
-    if not (isinstance(s, ast.If) and f == "body" and not s.orelse):
-      return None
-    ifs.append(s.test)
-  # ... and the blocks contain nothing but plain temporaries and the write itself
-  env = {}
-  blocks = [loop.body] + [s.body for (s, f) in chain[li + 1:]]
-  for bi, block in enumerate(blocks):
-    inner = chain[li + 1 + bi][0] if bi < len(blocks) - 1 else m.stmt
-    for s in block:
-      if s is inner:
-        continue
+  mut_stmts = [cfg.nodes[m].stmt for m in muts]
+
+  def write_of(s, env):
+    """(key or None, value) written by statement s, else None."""
+    if isinstance(s, ast.Expr) and isinstance(s.value, ast.Call) and \
+        isinstance(s.value.func, ast.Attribute) and isinstance(s.value.func.value, ast.Name) and \
+        s.value.func.value.id == name and len(s.value.args) == 1 and not s.value.keywords:
+      meth = s.value.func.attr
+      if (kind == "list" and meth == "append") or (kind == "set" and meth == "add"):
+        return (None, _subst(s.value.args[0], env))
+    if isinstance(s, ast.Assign) and len(s.targets) == 1 and \
+        isinstance(s.targets[0], ast.Subscript) and isinstance(s.targets[0].value, ast.Name) and \
+        s.targets[0].value.id == name and kind == "dict":
+      return (_subst(s.targets[0].slice, env), _subst(s.value, env))
+    return None
+
+  def block(stmts, env, allow_filter):
+    """(filters, key or None, value) for a statement block that performs exactly one write on
+    every path through it (filters: tests under which nothing is written), else None."""
+    env = dict(env)
+    for i, s in enumerate(stmts):
+      last = i == len(stmts) - 1
       if isinstance(s, ast.Assign) and len(s.targets) == 1 and isinstance(s.targets[0], ast.Name) \
-          and s.targets[0].id != name and not calls_in(s.value) and bi == len(blocks) - 1 and \
-          block.index(s) < block.index(inner):
+          and s.targets[0].id != name and not calls_in(s.value) and not last:
         env[s.targets[0].id] = _subst(s.value, env)
         continue
+      if not last:
+        return None
+      w_ = write_of(s, env)
+      if w_ is not None:
+        return ([], w_[0], w_[1])
+      if isinstance(s, ast.If):
+        test = _subst(s.test, env)
+        if not s.orelse:
+          if not allow_filter:
+            return None
+          inner = block(s.body, env, True)
+          return None if inner is None else ([test] + inner[0], inner[1], inner[2])
+        b1, b2 = block(s.body, env, False), block(s.orelse, env, False)
+        if b1 is None or b2 is None or (b1[1] is None) != (b2[1] is None):
+          return None
+        val = ast.IfExp(test=test, body=b1[2], orelse=b2[2])
+        key = None if b1[1] is None else (
+          b1[1] if text(b1[1]) == text(b2[1]) else ast.IfExp(test=test, body=b1[1], orelse=b2[1]))
+        return ([], key, val)
       return None
-  s = m.stmt
-  gen = ast.comprehension(target=loop.target, iter=loop.iter,
-                          ifs=[_subst(t, env) for t in ifs], is_async=0)
-  out = None
-  if isinstance(s, ast.Expr) and isinstance(s.value, ast.Call) and \
-      isinstance(s.value.func, ast.Attribute) and isinstance(s.value.func.value, ast.Name) and \
-      s.value.func.value.id == name and len(s.value.args) == 1 and not s.value.keywords:
-    meth = s.value.func.attr
-    if kind == "list" and meth == "append":
-      out = ast.ListComp(elt=_subst(s.value.args[0], env), generators=[gen])
-    elif kind == "set" and meth == "add":
-      out = ast.SetComp(elt=_subst(s.value.args[0], env), generators=[gen])
-  elif isinstance(s, ast.Assign) and len(s.targets) == 1 and isinstance(s.targets[0], ast.Subscript) \
-      and isinstance(s.targets[0].value, ast.Name) and s.targets[0].value.id == name and \
-      kind == "dict":
-    out = ast.DictComp(key=_subst(s.targets[0].slice, env), value=_subst(s.value, env),
-                       generators=[gen])
-  if out is not None:
-    ast.copy_location(out, loop)
-    ast.fix_missing_locations(out)
-    out._loop = loop
-    out._loop_node = lnode[0].id
+    return None
+
+  res = block(loop.body, {}, True)
+  if res is None:
+    return None
+  # every write of the name is one of those accounted for
+  seen = {id(x) for x in ast.walk(loop)}
+  if not all(id(ms) in seen for ms in mut_stmts):
+    return None
+  ifs, key, val = res
+  gen = ast.comprehension(target=loop.target, iter=loop.iter, ifs=ifs, is_async=0)
+  if kind == "list":
+    out = ast.ListComp(elt=val, generators=[gen])
+  elif kind == "set":
+    out = ast.SetComp(elt=val, generators=[gen])
+  else:
+    out = ast.DictComp(key=key, value=val, generators=[gen])
+  ast.copy_location(out, loop)
+  ast.fix_missing_locations(out)
+  out._loop = loop
+  out._loop_node = lnode[0].id
   return out
 
 
@@ -1158,8 +1198,27 @@ def nonempty_value(fn, e, name):
 def referrers(w, fi):
   """[(FuncInfo of the referring function, is a `self.<name>(...)` call that resolves to fi)] for
   every mention of method fi's name as an attribute that can denote fi."""
+  cache = w.__dict__.setdefault("_hB_refs", {})
+  if fi.qualname in cache:
+    return cache[fi.qualname]
+  # index: attribute name -> functions mentioning it (built once)
+  idx = w.__dict__.get("_hB_attr_index")
+  if idx is None:
+    idx = {}
+    for g in w.repo.all_functions():
+      for x in ast.walk(g.node):
+        if isinstance(x, ast.Attribute):
+          idx.setdefault(x.attr, set()).add(g.qualname)
+    w.__dict__["_hB_attr_index"] = idx
+  cache[fi.qualname] = out = _referrers(w, fi, idx.get(fi.name, ()))
+  return out
+
+
+def _referrers(w, fi, among):
   out = []
   for g in w.repo.all_functions():
+    if g.qualname not in among:
+      continue
     for x in ast.walk(g.node):
       if isinstance(x, ast.Attribute) and x.attr == fi.name:
         own = g.cls is not None and w.repo.find_method(g.cls, fi.name) is fi
@@ -1296,8 +1355,44 @@ def norm(w, fn, call):
 
 
 # ------------------------------------------------------------------ helpers read in place (AST)
+def name_referrers(w, fi):
+  """[(FuncInfo or None for module level, is a plain `name(...)` call)] for every mention of the
+  module-level function fi by name in its own module, plus (None, False) for any attribute
+  mention `<x>.<name>` elsewhere in the repository (another module may import and call it)."""
+  out = []
+  mod = fi.module
+  def mentions(root):
+    return [x for x in ast.walk(root) if isinstance(x, ast.Name) and x.id == fi.name and
+            isinstance(x.ctx, ast.Load)]
+  own = {id(x) for x in mentions(fi.node)}
+  in_funcs = set()
+  for g in w.repo.all_functions():
+    if g.module is not mod or g.node is fi.node or g.parent is not None:
+      continue              # nested functions are covered by the walk of their top-level parent
+    calls = {id(c.func) for c in ast.walk(g.node) if isinstance(c, ast.Call)}
+    for x in mentions(g.node):
+      if id(x) in own:
+        continue
+      in_funcs.add(id(x))
+      out.append((g, id(x) in calls))
+  for x in mentions(mod.tree):
+    if id(x) not in own and id(x) not in in_funcs:
+      out.append((None, False))        # used at module level (decorator, table of functions, ...)
+  for m in w.repo.modules.values():
+    if m is mod:
+      continue
+    for x in ast.walk(m.tree):
+      if isinstance(x, ast.Attribute) and x.attr == fi.name and \
+          isinstance(x.value, ast.Name) and x.value.id == mod.name:
+        out.append((None, False))
+      elif isinstance(x, ast.ImportFrom) and x.module == mod.name and \
+          any(a.name == fi.name for a in x.names):
+        out.append((None, False))
+  return out
+
+
 def _inlinable_helper(w, fn, call, select):
-  fi = self_method(w, fn, call)
+  fi = self_method(w, fn, call) or module_function(w, fn, call)
   if fi is None or fi.qualname == fn.qualname or fi.parent is not None:
     return None
   if select is not None and not select(fi):
@@ -1307,7 +1402,7 @@ def _inlinable_helper(w, fn, call, select):
       node.args.posonlyargs:
     return None
   for x in ast.walk(node):
-    if isinstance(x, (ast.Yield, ast.YieldFrom, ast.Global, ast.Nonlocal, ast.Lambda)) or \
+    if isinstance(x, (ast.Yield, ast.YieldFrom, ast.Global, ast.Nonlocal)) or \
         (isinstance(x, (ast.FunctionDef, ast.AsyncFunctionDef, ast.ClassDef)) and x is not node):
       return None
   # `return` only as the last top-level statement
@@ -1336,6 +1431,11 @@ def inlined_fn(w, qualname, select=None, suffix="__h"):
     def select(fi):
       if not fi.name.startswith("_") or fi.name.startswith("__") or fi.qualname in ua:
         return False
+      if fi.cls is None:
+        rs = name_referrers(w, fi)
+        return bool(rs) and all(ok and g is not None and (
+          g.qualname == qualname or (g.parent is not None and g.parent.qualname == qualname))
+          for (g, ok) in rs)
       rs = referrers(w, fi)
       return bool(rs) and all(ok and (g.qualname == qualname or
                                       (g.parent is not None and g.parent.qualname == qualname))
@@ -1352,9 +1452,9 @@ def inlined_fn(w, qualname, select=None, suffix="__h"):
     hfi = _inlinable_helper(w, fn, v, select)
     if hfi is None:
       return None
-    params = hfi.params()[1:]
+    params = hfi.params()[1:] if hfi.cls is not None else hfi.params()
     try:
-      args = [arg_of(v, hfi, p) for p in params]
+      args = [arg_of(v, hfi, p, skip_self=hfi.cls is not None) for p in params]
     except AnalysisError:
       return None
     if any(a is None for a in args):
@@ -1367,9 +1467,21 @@ def inlined_fn(w, qualname, select=None, suffix="__h"):
     stored |= {h.name for h in ast.walk(hnode) if isinstance(h, ast.ExceptHandler) and h.name}
     rename = {n: n + tag for n in stored | set(params)}
     class Ren(ast.NodeTransformer):
+      shield = frozenset()
       def visit_Name(self, node):
-        if node.id in rename:
+        if node.id in rename and node.id not in self.shield:
           return ast.copy_location(ast.Name(id=rename[node.id], ctx=node.ctx), node)
+        return node
+      def visit_Lambda(self, node):
+        # a lambda's own parameters are not the helper's locals
+        own = {a.arg for a in ast.walk(node.args) if isinstance(a, ast.arg)}
+        prev = self.shield
+        self.shield = prev | own
+        try:
+          node.args = self.generic_visit(node.args)
+          node.body = self.visit(node.body)
+        finally:
+          self.shield = prev
         return node
       def visit_ExceptHandler(self, node):
         self.generic_visit(node)
@@ -1517,3 +1629,50 @@ class NormWorld(object):
         typer._cache[fi.qualname] = saved
     self._nfns[fi.qualname] = f2
     return f2
+
+
+# ------------------------------------------------ "not found here" is not "not done" (round 2)
+def hidden_in_callees(w, fn, pred, depth=3, cfg=None):
+  """True when an event pred(call, name, fn) that fn does not perform itself may be performed
+  inside a same-class / same-module function fn calls (followed `depth` levels): the rule then
+  cannot say the mechanism is missing, only that it cannot see it."""
+  cfg = cfg or fn.cfg
+  for (n, c, nm) in fn.calls(cfg):
+    if pred(c, nm, fn):
+      continue
+    fi = local_callee(w, fn, c)
+    if fi is not None and fi.qualname != fn.qualname:
+      if may_nodes(w, w.fn_of(fi), pred, depth - 1, None, (fn.qualname,)):
+        return True
+  return False
+
+
+def mentions_in_reach(w, fn, node_pred, depth=3, _seen=None):
+  """True when fn, or a same-class / same-module function it calls (depth levels), contains an
+  AST node satisfying node_pred."""
+  _seen = _seen if _seen is not None else set()
+  if fn.qualname in _seen:
+    return False
+  _seen.add(fn.qualname)
+  if any(node_pred(x) for x in ast.walk(fn.node)):
+    return True
+  if depth <= 0:
+    return False
+  for (n, c, nm) in fn.calls():
+    fi = local_callee(w, fn, c)
+    if fi is not None and mentions_in_reach(w, w.fn_of(fi), node_pred, depth - 1, _seen):
+      return True
+  return False
+
+
+def is_private_part(w, fi):
+  """fi is a private method/function used only through plain calls from one other function (an
+  extracted part of it): (True, caller qualname) else (False, None)."""
+  if not fi.name.startswith("_") or fi.name.startswith("__") or fi.parent is not None:
+    return (False, None)
+  rs = referrers(w, fi) if fi.cls is not None else name_referrers(w, fi)
+  rs = [(g, ok) for (g, ok) in rs if g is None or g.qualname != fi.qualname]
+  if not rs or not all(ok and g is not None for (g, ok) in rs):
+    return (False, None)
+  callers = {g.qualname if g.parent is None else g.parent.qualname for (g, ok) in rs}
+  return (True, callers.pop()) if len(callers) == 1 else (False, None)
